@@ -1,8 +1,119 @@
-import Pun.Model.Proto
+import Pun.Model.Iso
+import Pun.Drv.PBoxCommon
+import Pun.Drv.C01
+/-! protocol handler of C12: nested interval / p-box expressions, stacking, alpha-cuts, slicing;
+single p-box operations fall through to the shared p-box handler, single interval operations to
+the C01 handler.  Trees are sent in prefix form. -/
 namespace Pun.Drv.C12
-open Pun
+open Pun Pun.Iso Pun.PBox
+
+def parseIOp : String → Option Arith.BinOp
+  | "add" => some .add | "sub" => some .sub | "mul" => some .mul | "div" => some .div | _ => none
+
+/-- prefix form: `v i` | `n c` | `b op t t` | `g t`; `fuel` bounds the recursion -/
+def parseITree : Nat → List String → Option (ITree × List String)
+  | 0, _ => none
+  | _ + 1, "v" :: i :: rest => do some (.var (← parseNat i), rest)
+  | _ + 1, "n" :: c :: rest => do some (.num (← parseRat c), rest)
+  | f + 1, "b" :: op :: rest => do
+      let o ← parseIOp op
+      let (a, r1) ← parseITree f rest
+      let (b, r2) ← parseITree f r1
+      some (.bin o a b, r2)
+  | f + 1, "g" :: rest => do
+      let (a, r1) ← parseITree f rest
+      some (.neg a, r1)
+  | _, _ => none
+
+/-- prefix form: `v i` | `b op dep t t` | `r op t c` | `l op c t` | `g t` | `e t t` | `m t t` -/
+def parsePTree : Nat → List String → Option (PTree × List String)
+  | 0, _ => none
+  | _ + 1, "v" :: i :: rest => do some (.var (← parseNat i), rest)
+  | f + 1, "b" :: op :: dep :: rest => do
+      let o ← PBoxCommon.parseOp op
+      let d ← PBoxCommon.parseDep dep
+      let (a, r1) ← parsePTree f rest
+      let (b, r2) ← parsePTree f r1
+      some (.bin o d a b, r2)
+  | f + 1, "r" :: op :: rest => do
+      let o ← PBoxCommon.parseOp op
+      let (a, r1) ← parsePTree f rest
+      match r1 with
+      | c :: r2 => do some (.numR o a (← parseRat c), r2)
+      | [] => none
+  | f + 1, "l" :: op :: c :: rest => do
+      let o ← PBoxCommon.parseOp op
+      let cc ← parseRat c
+      let (a, r1) ← parsePTree f rest
+      some (.numL o cc a, r1)
+  | f + 1, "g" :: rest => do
+      let (a, r1) ← parsePTree f rest
+      some (.neg a, r1)
+  | f + 1, "e" :: rest => do
+      let (a, r1) ← parsePTree f rest
+      let (b, r2) ← parsePTree f r1
+      some (.env a b, r2)
+  | f + 1, "m" :: rest => do
+      let (a, r1) ← parsePTree f rest
+      let (b, r2) ← parsePTree f r1
+      some (.imp a b, r2)
+  | _, _ => none
+
+def parsePBs : List String → Option (List PB)
+  | [] => some []
+  | l :: r :: rest => do
+      let p ← PBoxCommon.parsePB l r
+      let ps ← parsePBs rest
+      some (p :: ps)
+  | _ => none
+
+def showOpd : Except Err Arith.Opd → String
+  | .ok (.I a b) => s!"ok I {showRat a} {showRat b}"
+  | .ok (.A l h) => s!"ok A {showList l} {showList h}"
+  | .ok (.N c) => s!"ok N {showRat c}"
+  | .ok _ => "bad-op"
+  | .error e => s!"err {e}"
 
 def handle : List String → String
-  | _ => "bad-op"
+  | "itree" :: rest =>
+    match parseITree 64 rest with
+    | some (t, [lo, hi]) =>
+      match parseList lo, parseList hi with
+      | some l, some h => if l.length = h.length then showOpd (t.eval (l.zip h)) else "bad-op"
+      | _, _ => "bad-op"
+    | _ => "bad-op"
+  | "ptree" :: steps :: rest =>
+    match parseNat steps, parsePTree 64 rest with
+    | some n, some (t, more) =>
+      match parsePBs more with
+      | some vars => PBoxCommon.showPB (t.eval n vars)
+      | none => "bad-op"
+    | _, _ => "bad-op"
+  | ["iun", a, b] =>
+    match parseRat a, parseRat b with
+    | some x, some y => showOpd (ivUnary x y)
+    | _, _ => "bad-op"
+  | ["stack", g, lo, hi, w] =>
+    match parseList g, parseList lo, parseList hi, parseList w with
+    | some g, some l, some h, some w => PBoxCommon.showPB (stacking g l h w)
+    | _, _, _, _ => "bad-op"
+  | ["cut", pv, l, r, a] =>
+    match parseList pv, PBoxCommon.parsePB l r, parseRat a with
+    | some pv, some p, some a =>
+      match alphaCut pv p a with
+      | .ok (x, y) => s!"ok {nearestIdx pv a} {showRat x} {showRat y}"
+      | .error e => s!"err {e}"
+    | _, _, _ => "bad-op"
+  | "slice" :: pv :: levels :: w :: rest =>
+    match parseList pv, parseList levels, parseRat w, parseITree 64 rest with
+    | some pv, some lv, some w, some (t, more) =>
+      match parsePBs more with
+      | some vars => PBoxCommon.showPB (slicing pv lv t vars w)
+      | none => "bad-op"
+    | _, _, _, _ => "bad-op"
+  | toks =>
+    match PBoxCommon.handle toks with
+    | "bad-op" => C01.handle toks
+    | r => r
 
 end Pun.Drv.C12
